@@ -601,6 +601,13 @@ func runCheck(prop, repo, verif, tier, only string, updateBaseline, verbose, noE
 					if r.Status == "unchanged" && len(ks) > 1 {
 						continue // a lemma may mention functions that did not change
 					}
+					if !r.carries() && r.Status != "unchanged" {
+						// not equivalent for arbitrary inputs: perhaps under the preconditions of
+						// the contract these obligations belong to
+						if ct := contractOf(name); ct != nil && !ct.lemma && len(ct.requires) > 0 {
+							r = ck.checkUnder(k, ct.label())
+						}
+					}
 					if !r.carries() {
 						ok = false
 						break
